@@ -284,9 +284,14 @@ def _mmul(m1, m2):
     return tuple(sorted(d.items()))
 
 
+_P_MUL_BUDGET = [0]  # set by equal(): intermediate products above it abandon the exact normal form
+
+
 def p_mul(a, b):
     if len(a) > len(b):
         a, b = b, a
+    if _P_MUL_BUDGET[0] and len(a) * len(b) > _P_MUL_BUDGET[0]:
+        raise NotRational("polynomial product too large for the exact normal form: random interpretation")
     r = {}
     for m1, c1 in a.items():
         for m2, c2 in b.items():
@@ -599,13 +604,14 @@ def equal(a: Ex, b: Ex, rng=None, points=12, real_only=False, tol=1e-8):
         a, b = realify(a), realify(b)
         if a is b:
             return True, "identical", None
+    saved = _P_MUL_BUDGET[0]
     try:
         atoms = {}
+        _P_MUL_BUDGET[0] = EXACT_PRODUCT_LIMIT
         n1, d1 = to_rat(a, atoms)
         n2, d2 = to_rat(b, atoms)
-        if len(n1) * len(d2) > EXACT_PRODUCT_LIMIT or len(n2) * len(d1) > EXACT_PRODUCT_LIMIT:
-            raise NotRational("cross-multiplication too large for the exact normal form: random interpretation")
         lhs, rhs = p_mul(n1, d2), p_mul(n2, d1)
+        _P_MUL_BUDGET[0] = saved
         if lhs == rhs:
             return True, "exact", None
         if not atoms:
@@ -613,6 +619,8 @@ def equal(a: Ex, b: Ex, rng=None, points=12, real_only=False, tol=1e-8):
             return False, "exact", "difference (cross-multiplied): " + p_show(diff)
     except NotRational:
         pass
+    finally:
+        _P_MUL_BUDGET[0] = saved
     # random interpretation
     rng = rng or random.Random(0)
     names = sorted(symbols_of(a) | symbols_of(b))
